@@ -6,6 +6,8 @@ Scenario:
   rtt0    initial rtt_estimate in ticks
   den     ticks per second (a power of two <= 64): instants, delays and RTT samples are ticks/den
   size    flow size in bytes (0 = unbounded source)
+  echo    (optional) 1: a retransmission of the oldest outstanding segment made by a timer is acknowledged at once, inside
+          the sender's out.put() (a receiver right behind the sender)
   gaps    (optional) Flow.arrival_dist: scripted inter-arrival times of application data in ticks (last one repeats):
           the sender really sleeps in its refill loop while ACKs / duplicates / timer expiries change the window
   chunks  (optional) Flow.size_dist: scripted sizes in bytes of the chunks the application hands over (last repeats)
@@ -155,6 +157,16 @@ def run_one(sc):
                 st["put_out"].append(pid)
             elif new:
                 log(e="S", seq=iv(pid), size=iv(pkt.size), ns=iv(pid))
+            elif sc.get("echo") and pid == snd.last_ack and not st.get("echoing"):
+                # "echo": the receiver sits right behind the sender (a path without delay) and acknowledges the
+                # retransmission of the oldest outstanding segment at once, inside out.put().  The timeout is recorded
+                # here, at the moment the retransmission appears -- what it did to cwnd and RTO is what the ACK meets
+                log(e="T", seq=iv(pid), nrx=1)
+                st["echoing"] = True
+                try:
+                    deliver(min(pid + MSS, snd.next_seq), env.now)
+                finally:
+                    st["echoing"] = False
             else:
                 st["step_rx"].append(pid)
 
